@@ -107,6 +107,17 @@ def buffer_ownership(ctx, R, DR):
            construct=f"{attr} initialisation", node=hits[0][2] if hits else None,
            fail=f"{attr} is one class-level object mutated in place: every connection appends to and frames packets from the same buffer "
                 "(a reconnect or a second device replays / corrupts another connection's packets)")
+    # ... and every protocol class starts with one (its own initialiser or an inherited one sets it)
+    from ..ctor import init_attrs
+    missing = []
+    for k in family.values():
+        try:
+            if attr not in init_attrs(prog, k):
+                missing.append(k)
+        except AnalysisError:
+            pass
+    ctx.ob(RE, DR, not missing, f"every protocol class initialises {attr} when it is constructed", func=DR, file=cb.module.rel, construct=f"{attr} initialisation",
+           fail=f"{', '.join(k.name for k in missing)} is constructed without {attr}: the first received segment raises AttributeError inside the event loop callback")
     allowed = {f.qual for f in owners}
     grew = True
     while grew:          # (an override, anywhere in the family, of the callback or of one of its helpers plays the same role)
